@@ -238,10 +238,12 @@ impl Color3f<Rgb> {
         };
         let h = h / 6.0;
         let l = (max + min) / 2.0;
-        let s = if l == 0.0 || l == 1.0 {
+        let s = if d == 0.0 || l == 0.0 || l == 1.0 {
             0.0
         } else {
-            d / (1.0 - f32::abs(2.0 * l - 1.0))
+            // The denominator cancels for very dark and very light colors;
+            // rounding must not push the saturation past one
+            (d / (1.0 - f32::abs(2.0 * l - 1.0))).min(1.0)
         };
 
         for ch in [h, s, l] {
